@@ -1146,6 +1146,25 @@ pub fn run_c17(cfg: &Config) -> i32 {
 		rep
 	});
 	total.merge(rep);
+	// containers beyond any block / pre-allocation size of the (de)serialization paths
+	if !cfg.san {
+		let sizes = [11_915usize, 11_916, 20_000, 65_536, 65_537, 140_000];
+		let rep = parallel(cfg.threads, sizes.len() * 2, |j| {
+			let mut rep = Report::new();
+			let n = sizes[j / 2];
+			// (the model's duplicate collapse is quadratic: objects stay below 2*10^4 members)
+			let r = if j % 2 == 0 || n > 20_000 {
+				RVal::Arr((0..n).map(|x| if x % 3 == 0 { RVal::Num(format!("{}.5", x)) } else { RVal::Num(x.to_string()) }).collect())
+			} else {
+				RVal::Obj(vec![("wide".to_string(), RVal::Obj((0..n).map(|x| (format!("k{}", x), RVal::Bool(x % 2 == 0))).collect())), ("tail".to_string(), RVal::Arr((0..n / 2).map(|_| RVal::Null).collect()))])
+			};
+			rep.max("widest_serialized_container", n as u64);
+			rep.distinct_by_construction(1);
+			c17_one(&mut rep, &r);
+			rep
+		});
+		total.merge(rep);
+	}
 	conclude(
 		cfg,
 		EvidenceMeta {
